@@ -44,6 +44,8 @@ struct Spec {
     signed: bool,
     addr: i64,
     chunk: bool,
+    /// connected to the port that declares <SwapEndianess>Yes</SwapEndianess>
+    swap: bool,
 }
 
 fn xml_of(specs: &[Spec]) -> String {
@@ -51,7 +53,7 @@ fn xml_of(specs: &[Spec]) -> String {
     for (i, n) in specs.iter().enumerate() {
         let addr = if i % 3 == 0 && n.addr >= 0 { format!("0x{:x}", n.addr) } else { n.addr.to_string() };
         s += &format!("<{} Name=\"{}\"><Address>{}</Address><Length>{}</Length><AccessMode>RW</AccessMode><pPort>{}</pPort>",
-            n.kind.tag(), n.name, addr, n.len, if n.chunk { "ChunkPort" } else { "Device" });
+            n.kind.tag(), n.name, addr, n.len, if n.chunk { "ChunkPort" } else if n.swap { "SwapPort" } else { "Device" });
         if i % 2 == 0 {
             s += "<Cachable>NoCache</Cachable>";
         }
@@ -552,9 +554,32 @@ impl Runner {
             hex(&before.img),
             before.refuse_str()
         );
-        let ans = answer(&out_str(&out, &s, &before), &dev);
-        let nontrivial = !matches!(out, Out::Err(_) | Out::Panic);
-        self.rep.case(&req, nontrivial);
+        let unsupported = (matches!(op, Op::IntValue | Op::IntSet(_)) && !matches!(s.len, 1 | 2 | 4 | 8))
+            || (matches!(op, Op::FloatValue | Op::FloatSet(_)) && !matches!(s.len, 4 | 8));
+        let ans = if s.len >= 0 && unsupported && matches!(out, Out::Err(_)) {
+            // "refused with an error": which error wins when the port/device would fail too is not specified
+            format!("err UnsupportedLength;W={};{}", dev.writes(), hex(&dev.img))
+        } else if s.len < 0 && matches!(out, Out::Err(_) | Out::Panic) {
+            // negative <Length>: outside the statement; panic and error are both "refused"
+            format!("refused;W={};{}", dev.writes(), hex(&dev.img))
+        } else {
+            answer(&out_str(&out, &s, &before), &dev)
+        };
+        // distinct non-trivial cases: hashed by (node configuration, register bytes for reads,
+        // operation, argument, fault script) -- NOT by the random pad bytes around the register;
+        // min/max touch nothing and do not count
+        let nontrivial = !matches!(out, Out::Err(_) | Out::Panic) && !matches!(op, Op::IntMin | Op::IntMax);
+        let reg_part = if s.len >= 0 && matches!(op, Op::IntValue | Op::FloatValue | Op::StrValue | Op::RegRead(_)) {
+            let off = (s.addr - before.base) as usize;
+            hex(&before.img[off..off + s.len as usize])
+        } else {
+            "-".into()
+        };
+        let canon = format!("{} {} {} {} {} {} {} {opname} {arg} {reg_part} {}", s.kind.tag(), s.len, s.be, s.signed, s.chunk, s.swap, s.addr, before.refuse_str());
+        self.rep.case(&canon, nontrivial);
+        if s.swap {
+            self.rep.count("port/SwapEndianess=Yes (pinned: no effect)");
+        }
         self.rep.count(&format!("{}/{}", s.kind.tag(), opname));
         self.rep.count(&format!("src/{src}"));
         self.rep.count(&format!(
@@ -578,7 +603,7 @@ impl Runner {
             self.rep.violation(
                 v.sig,
                 &v.what,
-                json!({"spec": {"kind": s.kind.tag(), "len": s.len, "be": s.be, "signed": s.signed, "addr": s.addr.to_string(), "chunk": s.chunk},
+                json!({"spec": {"kind": s.kind.tag(), "len": s.len, "be": s.be, "signed": s.signed, "addr": s.addr.to_string(), "chunk": s.chunk, "swap": s.swap},
                        "op": opname, "arg": arg, "base": before.base.to_string(), "img": hex(&before.img), "refuse": before.refuse_str()}),
             );
         }
@@ -738,6 +763,11 @@ enum CStep {
     Poke(Vec<u8>),
     /// another feature (raw register Q, no invalidator declared) writes the same bytes range
     Overlap(Vec<u8>),
+    /// write through P while the device answers its next write with a one-shot fault
+    /// (refused / applied but reported failed / partially applied)
+    FaultSet(Op, WriteFault),
+    /// read P while the device answers its next read with a one-shot fault
+    FaultRead(ReadFault),
 }
 
 impl CScenario {
@@ -756,13 +786,18 @@ impl CScenario {
         x += XML_TAIL;
         x
     }
+    fn unsupported_len(&self) -> bool {
+        (self.kind == Kind::IntReg && !matches!(self.len, 1 | 2 | 4 | 8)) || (self.kind == Kind::FloatReg && !matches!(self.len, 4 | 8))
+    }
     fn read_op(&self) -> Op {
         match self.kind { Kind::IntReg => Op::IntValue, Kind::FloatReg => Op::FloatValue, Kind::StringReg => Op::StrValue, Kind::Register => Op::RegRead(self.len) }
     }
     /// image a successful write must put on the device (None: any f32 NaN of that sign), or Err = must be refused
     fn expect(&self, op: &Op) -> Result<Option<Vec<u8>>, &'static str> {
         match op {
+            Op::IntSet(_) if !matches!(self.len, 1 | 2 | 4 | 8) => Err("InvalidBuffer"),
             Op::IntSet(v) => Ok(Some(image_of(*v, self.len, self.be))),
+            Op::FloatSet(_) if !matches!(self.len, 4 | 8) => Err("InvalidBuffer"),
             Op::FloatSet(b) => {
                 if self.len == 8 { Ok(Some(image_of(*b as i64, 8, self.be))) }
                 else { Ok(soft_narrow(*b).map(|n| image_of(n as i64, 4, self.be))) }
@@ -787,6 +822,8 @@ impl CScenario {
                 CStep::Read => json!(["read", "", ""]),
                 CStep::Poke(b) => json!(["poke", "", hex(b)]),
                 CStep::Overlap(b) => json!(["overlap", "", hex(b)]),
+                CStep::FaultSet(op, f) => { let (n, a) = op_tokens(op); json!([match f { WriteFault::Refuse => "refused-set".to_string(), WriteFault::LostAck => "lostack-set".to_string(), WriteFault::Partial(k) => format!("partial-set:{k}") }, n, a]) }
+                CStep::FaultRead(f) => json!([match f { ReadFault::Refuse => "refused-read", ReadFault::FilledThenFail => "filled-fail-read", ReadFault::GarbageThenFail => "garbage-fail-read" }, "", ""]),
             }).collect::<Vec<_>>(),
         }})
     }
@@ -803,12 +840,21 @@ impl CScenario {
                 "read" => CStep::Read,
                 "poke" => CStep::Poke(unhex(a)),
                 "overlap" => CStep::Overlap(unhex(a)),
-                _ => CStep::Set(match st[1].as_str().unwrap() {
-                    "int.set" => Op::IntSet(a.parse().unwrap()),
-                    "float.set" => Op::FloatSet(u64::from_str_radix(a.trim_start_matches("f:"), 16).unwrap()),
-                    "str.set" => Op::StrSet(String::from_utf8(unhex(a)).unwrap()),
-                    _ => Op::RegWrite(unhex(a)),
-                }),
+                "refused-read" => CStep::FaultRead(ReadFault::Refuse),
+                "filled-fail-read" => CStep::FaultRead(ReadFault::FilledThenFail),
+                "garbage-fail-read" => CStep::FaultRead(ReadFault::GarbageThenFail),
+                tag => {
+                    let op = match st[1].as_str().unwrap() {
+                        "int.set" => Op::IntSet(a.parse().unwrap()),
+                        "float.set" => Op::FloatSet(u64::from_str_radix(a.trim_start_matches("f:"), 16).unwrap()),
+                        "str.set" => Op::StrSet(String::from_utf8(unhex(a)).unwrap()),
+                        _ => Op::RegWrite(unhex(a)),
+                    };
+                    if tag == "refused-set" { CStep::FaultSet(op, WriteFault::Refuse) }
+                    else if tag == "lostack-set" { CStep::FaultSet(op, WriteFault::LostAck) }
+                    else if let Some(k) = tag.strip_prefix("partial-set:") { CStep::FaultSet(op, WriteFault::Partial(k.parse().unwrap())) }
+                    else { CStep::Set(op) }
+                }
             }
         }).collect();
         (sc, unhex(c["reg0"].as_str().unwrap()), steps)
@@ -831,15 +877,23 @@ fn run_cached_history(rep: &mut Report, sc: &CScenario, reg0: &[u8], steps: &[CS
     let sig = |kind: &str| json!({"kind": kind, "cached": true, "node": sc.kind.tag(), "cachable": cname, "len": sc.len, "be": sc.be, "signed": sc.signed});
     // value written last through P and not disturbed since (None: unknown / disturbed)
     let mut clean_last: Option<Op> = None;
+    // `coherent`: nothing changed the register bytes behind a possibly filled cache since the cache was last
+    // synchronised -> every successful read must decode the bytes the device holds NOW.
+    // `known_empty`: no successful access through P yet -> the cache cannot hold a valid entry, a successful
+    // read must be exactly one device read (a FAILED read must not populate the cache).
+    let mut coherent = true;
+    let mut known_empty = true;
     for (i, st) in steps.iter().enumerate() {
         let reg_before = dev.img[CPAD..CPAD + sc.len].to_vec();
         dev.log.clear();
         let mut bad: Option<(&str, String)> = None;
+        let mut read_done: Option<bool> = None;
         let canon = format!("cached {} {} {} {} {cname} step{i} {:?} {}", sc.kind.tag(), sc.len, sc.be, sc.signed, st, hex(&reg_before));
         match st {
             CStep::Poke(b) => {
                 dev.img[CPAD..CPAD + sc.len].copy_from_slice(b);
                 clean_last = None;
+                if !known_empty { coherent = false; }
                 rep.count("cached/poke-device");
                 continue;
             }
@@ -848,9 +902,79 @@ fn run_cached_history(rep: &mut Report, sc: &CScenario, reg0: &[u8], steps: &[CS
                 rep.case(&canon, out == Out::Unit);
                 rep.count("cached/overlapping-register-write");
                 clean_last = None;
+                if !known_empty { coherent = false; }
                 if out != Out::Unit || dev.log != vec![Access { write: true, addr: sc.addr, len: sc.len, bytes: b.clone() }] || dev.img[CPAD..CPAD + sc.len] != b[..] {
                     bad = Some(("raw-write", format!("step {i}: write through the overlapping NoCache register = {:?}, log {}", out, dev.log_str())));
                 }
+            }
+            CStep::FaultSet(op, fault) => {
+                dev.next_write_fault = Some(*fault);
+                let out = run_op(&store, &mut cx, p, op, &mut dev);
+                let fired = dev.next_write_fault.take().is_none();
+                rep.case(&canon, false);
+                rep.count(&format!("cached/faulty-device/set-{}", match fault { WriteFault::Refuse => "refused", WriteFault::LostAck => "applied-but-reported-failed", WriteFault::Partial(_) => "partially-applied" }));
+                clean_last = None;
+                let reg_after = dev.img[CPAD..CPAD + sc.len].to_vec();
+                match sc.expect(op) {
+                    Err(cls) => {
+                        // refused before the device: the fault must not even fire
+                        if !matches!(&out, Out::Err(c) if *c == cls) {
+                            bad = Some(("not-refused", format!("step {i}: {:?} = {:?}, expected Err({cls})", op, out)));
+                        } else if fired || dev.writes() != 0 || reg_after != reg_before {
+                            bad = Some(("write-on-refusal", format!("step {i}: refused {:?} reached the device: {}", op, dev.log_str())));
+                        }
+                    }
+                    Ok(exp) => {
+                        if !matches!(&out, Out::Err("Device")) {
+                            bad = Some(("not-refused", format!("step {i}: {:?} on a faulty device = {:?}, expected Err(Device)", op, out)));
+                        } else {
+                            // what the device holds now: nothing / the image / its first k bytes -- nothing else
+                            let k = match fault { WriteFault::Refuse => 0, WriteFault::LostAck => sc.len, WriteFault::Partial(k) => (*k).min(sc.len) };
+                            let ok = match &exp {
+                                Some(img) => reg_after[..k] == img[..k] && reg_after[k..] == reg_before[k..],
+                                None => reg_after[k..] == reg_before[k..],
+                            };
+                            if !ok {
+                                bad = Some(("image", format!("step {i}: faulty write {:?} of {:?}: device {} -> {}", fault, op, hex(&reg_before), hex(&reg_after))));
+                            }
+                            if k > 0 {
+                                // the write may have been applied: the old cached value must not be served any more
+                                coherent = true;
+                            }
+                        }
+                    }
+                }
+            }
+            CStep::FaultRead(fault) => {
+                dev.next_read_fault = Some(*fault);
+                let out = run_op(&store, &mut cx, p, &sc.read_op(), &mut dev);
+                let fired = dev.next_read_fault.take().is_none();
+                rep.case(&canon, false);
+                rep.count(&format!("cached/faulty-device/read-{}", match fault { ReadFault::Refuse => "refused", ReadFault::FilledThenFail => "filled-then-failed", ReadFault::GarbageThenFail => "garbage-then-failed" }));
+                if dev.writes() != 0 || dev.img[CPAD..CPAD + sc.len] != reg_before[..] || !dev.log.is_empty() {
+                    bad = Some(("read-wrote", format!("step {i}: read on a faulty device touched it: {}", dev.log_str())));
+                } else if out == Out::Panic {
+                    bad = Some(("panic", format!("step {i}: read on a faulty device panicked")));
+                } else if sc.unsupported_len() {
+                    if !matches!(out, Out::Err(_)) {
+                        bad = Some(("not-refused", format!("step {i}: value() of a {}-byte {} = {:?}", sc.len, sc.kind.tag(), out)));
+                    }
+                } else if fired && !matches!(out, Out::Err("Device")) {
+                    bad = Some(("fault-swallowed", format!("step {i}: the device failed the read but value() = {:?}", out)));
+                } else if !matches!(out, Out::Err(_)) {
+                    // served from the cache without any device access: legitimate only for a caching
+                    // register that can hold an entry, and then it must be right
+                    if cname == "NoCache" || known_empty {
+                        bad = Some(("ok-without-device-access", format!("step {i}: read = {:?} although no device read succeeded ({})", out, if known_empty { "nothing can be cached yet" } else { "NoCache" })));
+                    } else if coherent && !decodes(sc, &reg_before, &out) {
+                        bad = Some(("stale-read", format!("step {i}: cached read = {:?}, device holds {}", out, hex(&reg_before))));
+                    } else if let Some(last) = &clean_last {
+                        if !readback_matches(sc, last, &out) {
+                            bad = Some(("readback", format!("step {i}: cached read after {:?} = {:?}", last, out)));
+                        }
+                    }
+                }
+                // a failed read leaves `coherent` / `known_empty` as they are: it must not populate the cache
             }
             CStep::Set(op) => {
                 let out = run_op(&store, &mut cx, p, op, &mut dev);
@@ -875,13 +999,19 @@ fn run_cached_history(rep: &mut Report, sc: &CScenario, reg0: &[u8], steps: &[CS
                         } else {
                             let img_ok = match &exp {
                                 Some(img) => reg_after == *img,
-                                None => { let g = dec_unsigned(&reg_after, sc.be) as u32; f32::from_bits(g).is_nan() },
+                                None => {
+                                    // NaN: any binary32 NaN with the sign of the value
+                                    let g = dec_unsigned(&reg_after, sc.be) as u32;
+                                    let sign = match op { Op::FloatSet(b) => (*b >> 63) as u32, _ => 0 };
+                                    f32::from_bits(g).is_nan() && (g >> 31) == sign
+                                }
                             };
                             if !img_ok {
                                 bad = Some(("image", format!("step {i}: after {:?} the device holds {}, expected image {:?}", op, hex(&reg_after), exp.as_ref().map(|b| hex(b)))));
                             }
                         }
                         clean_last = if repeatable_readback(sc, op) { Some(op.clone()) } else { None };
+                        if bad.is_none() { coherent = true; known_empty = false; }
                     }
                 }
             }
@@ -889,30 +1019,46 @@ fn run_cached_history(rep: &mut Report, sc: &CScenario, reg0: &[u8], steps: &[CS
                 let out = run_op(&store, &mut cx, p, &sc.read_op(), &mut dev);
                 rep.case(&canon, !matches!(out, Out::Err(_) | Out::Panic));
                 rep.count(&format!("cached/{}/read", sc.kind.tag()));
+                if !matches!(out, Out::Err(_) | Out::Panic) && !sc.unsupported_len() {
+                    read_done = Some(dev.log.iter().any(|a| !a.write));
+                }
                 if dev.writes() != 0 || dev.img[CPAD..CPAD + sc.len] != reg_before[..] {
                     bad = Some(("read-wrote", format!("step {i}: read wrote to the device: {}", dev.log_str())));
+                } else if sc.unsupported_len() {
+                    // unsupported integer / float length: refused, whatever the cache holds
+                    if !matches!(out, Out::Err("InvalidBuffer")) {
+                        bad = Some(("not-refused", format!("step {i}: value() of a {}-byte {} = {:?}", sc.len, sc.kind.tag(), out)));
+                    }
                 } else if matches!(out, Out::Err(_) | Out::Panic) {
                     bad = Some(("read-failed", format!("step {i}: read = {:?}", out)));
                 } else if dev.log.iter().any(|a| a.addr != sc.addr || a.len != sc.len) || dev.log.len() > 1 {
                     bad = Some(("footprint", format!("step {i}: read accesses {}", dev.log_str())));
+                } else if known_empty && cname != "NoCache" && dev.log != vec![Access { write: false, addr: sc.addr, len: sc.len, bytes: reg_before.clone() }] {
+                    // nothing valid can be cached yet (no successful access so far; failed reads must not
+                    // populate the cache): the read must ask the device
+                    bad = Some(("stale-read", format!("step {i}: read = {:?} must be exactly one device read, nothing valid can be cached yet: log {}", out, dev.log_str())));
+                } else if coherent && cname != "NoCache" && !decodes(sc, &reg_before, &out) {
+                    bad = Some(("stale-read", format!("step {i}: read = {:?} but the device holds {} and nothing changed it behind the cache", out, hex(&reg_before))));
+                } else if cname == "NoCache" {
+                    // a NoCache register always reads the device: one read, value = decoding of the
+                    // bytes the device holds NOW (also right after Poke / Overlap)
+                    if dev.log != vec![Access { write: false, addr: sc.addr, len: sc.len, bytes: reg_before.clone() }] {
+                        bad = Some(("footprint", format!("step {i}: NoCache read must be one device read: {}", dev.log_str())));
+                    } else if !decodes(sc, &reg_before, &out) {
+                        bad = Some(("decode", format!("step {i}: NoCache read = {:?}, device holds {}", out, hex(&reg_before))));
+                    }
                 } else if let Some(last) = &clean_last {
                     // read-back right after an undisturbed write returns the written value
-                    let ok = match (last, &out) {
-                        (Op::IntSet(v), Out::Int(x)) => *x == expected_int(&image_of(*v, sc.len, sc.be), sc.be, sc.signed),
-                        (Op::FloatSet(b), Out::Float(x)) => {
-                            let xb = f64::from_bits(*b);
-                            if xb.is_nan() { f64::from_bits(*x).is_nan() }
-                            else if sc.len == 8 { x == b }
-                            else { soft_narrow(*b).and_then(soft_widen) == Some(*x) }
-                        }
-                        (Op::StrSet(v), Out::Str(x)) => x == v,
-                        (Op::RegWrite(d), Out::Bytes(x)) => x == d,
-                        _ => false,
-                    };
-                    if !ok {
+                    if !readback_matches(sc, last, &out) {
                         bad = Some(("readback", format!("step {i}: read-back after {:?} = {:?}", last, out)));
                     }
                 }
+            }
+        }
+        if bad.is_none() {
+            if let Some(hit_device) = read_done {
+                known_empty = false;
+                if hit_device { coherent = true; }
             }
         }
         if bad.is_none() && (dev.img[..CPAD] != img[..CPAD] || dev.img[CPAD + sc.len..] != img[CPAD + sc.len..] || !dev.outside.is_empty()) {
@@ -932,14 +1078,47 @@ fn repeatable_readback(_sc: &CScenario, _op: &Op) -> bool {
     true
 }
 
+/// does `out` equal the value written by `last` (as read back from its image)?
+fn readback_matches(sc: &CScenario, last: &Op, out: &Out) -> bool {
+    match (last, out) {
+        (Op::IntSet(v), Out::Int(x)) => *x == expected_int(&image_of(*v, sc.len, sc.be), sc.be, sc.signed),
+        (Op::FloatSet(b), Out::Float(x)) => {
+            let xb = f64::from_bits(*b);
+            if xb.is_nan() { f64::from_bits(*x).is_nan() }
+            else if sc.len == 8 { x == b }
+            else { soft_narrow(*b).and_then(soft_widen) == Some(*x) }
+        }
+        (Op::StrSet(v), Out::Str(x)) => x == v,
+        (Op::RegWrite(d), Out::Bytes(x)) => x == d,
+        _ => false,
+    }
+}
+
+/// is `out` the decoding of the register bytes `reg`?
+fn decodes(sc: &CScenario, reg: &[u8], out: &Out) -> bool {
+    match (sc.kind, out) {
+        (Kind::IntReg, Out::Int(x)) => *x == expected_int(reg, sc.be, sc.signed),
+        (Kind::FloatReg, Out::Float(x)) => {
+            let u = dec_unsigned(reg, sc.be);
+            if sc.len == 8 { *x == u as u64 } else { match soft_widen(u as u32) { Some(e) => e == *x, None => f64::from_bits(*x).is_nan() } }
+        }
+        (Kind::StringReg, Out::Str(x)) => {
+            let end = reg.iter().position(|b| *b == 0).unwrap_or(reg.len());
+            if reg[..end].is_ascii() { x.as_bytes() == &reg[..end] } else { *x == String::from_utf8_lossy(&reg[..end]) }
+        }
+        (Kind::Register, Out::Bytes(x)) => x == reg,
+        _ => false,
+    }
+}
+
 fn cached_pass(rep: &mut Report, rng: &mut Rng, thorough: bool) {
     let addrs: [i64; 4] = [0x300, 5, 0x7fff_ffff_ffff_f000, -48];
     let n = if thorough { 4000 } else { 800 };
     for gi in 0..n {
         let kind = [Kind::IntReg, Kind::FloatReg, Kind::StringReg, Kind::Register][gi % 4];
         let len = match kind {
-            Kind::IntReg => *rng.pick(&[1usize, 2, 4, 8]),
-            Kind::FloatReg => *rng.pick(&[4usize, 8]),
+            Kind::IntReg => *rng.pick(&[1usize, 2, 4, 8, 1, 2, 4, 8, 3, 16]),
+            Kind::FloatReg => *rng.pick(&[4usize, 8, 4, 8, 4, 8, 2]),
             _ => 1 + rng.below(16) as usize,
         };
         let sc = CScenario { kind, len, be: rng.bool(), signed: rng.bool(), addr: addrs[(gi / 4) % addrs.len()],
@@ -947,7 +1126,7 @@ fn cached_pass(rep: &mut Report, rng: &mut Rng, thorough: bool) {
         let gen_set = |rng: &mut Rng| -> Op {
             match kind {
                 Kind::IntReg => Op::IntSet(if rng.bool() { rng.interesting_i64() } else { rng.below(300) as i64 - 20 }),
-                Kind::FloatReg => Op::FloatSet(match rng.below(4) { 0 => rng.next_u64(), 1 => (f32::from_bits(rng.next_u64() as u32) as f64).to_bits(), 2 => 1.5f64.to_bits(), _ => ((rng.below(2000) as f64) / 8.0).to_bits() }),
+                Kind::FloatReg => Op::FloatSet(match rng.below(5) { 4 => 0x7ff8_0000_0000_0000 | (rng.below(2) << 63) | (rng.next_u64() >> 13), 0 => rng.next_u64(), 1 => (f32::from_bits(rng.next_u64() as u32) as f64).to_bits(), 2 => 1.5f64.to_bits(), _ => ((rng.below(2000) as f64) / 8.0).to_bits() }),
                 Kind::StringReg => {
                     let l = match rng.below(8) { 0 => len + 1, _ => rng.below(len as u64 + 1) as usize };
                     let mut st: String = (0..l).map(|_| (0x20 + rng.below(0x5f)) as u8 as char).collect();
@@ -960,8 +1139,24 @@ fn cached_pass(rep: &mut Report, rng: &mut Rng, thorough: bool) {
         let reg0 = rng.bytes(len);
         let mut steps: Vec<CStep> = vec![];
         let mut last_set: Option<Op> = None;
+        if gi % 3 == 0 {
+            // the very first access fails (nothing cached yet), the second one is healthy
+            steps.push(CStep::FaultRead([ReadFault::Refuse, ReadFault::FilledThenFail, ReadFault::GarbageThenFail][(gi / 3) % 3]));
+            steps.push(CStep::Read);
+        }
         for _ in 0..(if thorough { 24 } else { 14 }) {
-            match rng.below(10) {
+            match rng.below(12) {
+                10 => {
+                    let op = last_set.clone().filter(|_| rng.bool()).unwrap_or_else(|| gen_set(rng));
+                    let f = match rng.below(3) { 0 => WriteFault::Refuse, 1 => WriteFault::LostAck, _ => WriteFault::Partial(rng.below(len as u64 + 1) as usize) };
+                    steps.push(CStep::FaultSet(op, f));
+                    steps.push(CStep::Read);
+                }
+                11 => {
+                    // the device fails one read, then is healthy again: the re-read must ask the device
+                    steps.push(CStep::FaultRead(*rng.pick(&[ReadFault::Refuse, ReadFault::FilledThenFail, ReadFault::GarbageThenFail])));
+                    steps.push(CStep::Read);
+                }
                 0 | 1 | 2 => {
                     let op = gen_set(rng);
                     last_set = Some(op.clone());
@@ -998,7 +1193,7 @@ fn main() {
     let mut rng = Rng::new(args.seed);
     let rep = Report::new(
         "C01",
-        "real nodes parsed from generated XML (kind x length incl. unsupported x byte order x sign x address), caching off, recording device; exhaustive values for 8-bit on every node and for 16-bit on one address per (byte order, sign) configuration in BOTH tiers (strided on the other addresses), boundary+random for 32/64-bit and floats, random device images, strings incl. unrepresentable ones, raw reads/writes with right and wrong buffer lengths, device refusals; second pass with CACHING ON (default cache store; default/WriteThrough/WriteAround/NoCache; int, float, string, raw registers; an overlapping raw register without declared invalidator): histories of writes, repeated identical writes, device bytes changed behind the cache (overlapping register, device poke), read-back after every write, under implementation-only oracles (every successful write is exactly one device write of the exact image, device range = image right after, refused writes and reads never write, frame); a case is non-trivial when the access succeeds; distinct by full request line",
+        "real nodes parsed from generated XML (kind x length incl. unsupported x byte order x sign x address), caching off, recording device; exhaustive values for 8-bit on every node and for 16-bit on one address per (byte order, sign) configuration in BOTH tiers (strided on the other addresses), boundary+random for 32/64-bit and floats, random device images, strings incl. unrepresentable ones, raw reads/writes with right and wrong buffer lengths, device refusals; second pass with CACHING ON (default cache store; default/WriteThrough/WriteAround/NoCache; int, float, string, raw registers; an overlapping raw register without declared invalidator): histories of writes, repeated identical writes, device bytes changed behind the cache (overlapping register, device poke), read-back after every write, one-shot device faults (read: refused / filled then failed / garbage then failed, followed by a healthy re-read; write: refused / applied but reported failed / partially applied), under implementation-only oracles (a failed read never populates the cache; while nothing changed the bytes behind the cache every read decodes the device bytes; (every successful write is exactly one device write of the exact image, device range = image right after, refused writes and reads never write, frame); a case is non-trivial when the access succeeds; distinct by full request line",
     );
 
     // ----- node table -----
@@ -1006,7 +1201,7 @@ fn main() {
     let mut specs: Vec<Spec> = vec![];
     let mut k = 0usize;
     let add = |kind: Kind, len: i64, be: bool, signed: bool, addr: i64, chunk: bool, specs: &mut Vec<Spec>| {
-        specs.push(Spec { name: format!("N{}", specs.len()), kind, len, be, signed, addr, chunk });
+        specs.push(Spec { name: format!("N{}", specs.len()), kind, len, be, signed, addr, chunk, swap: false });
         specs.len() - 1
     };
     let mut int_nodes = vec![];
@@ -1045,6 +1240,21 @@ fn main() {
             raw_nodes.push(add(kind, len, k % 2 == 0, k % 3 == 0, addrs[k % addrs.len()], false, &mut specs));
         }
     }
+    // nodes on a port that declares <SwapEndianess>Yes</SwapEndianess>: the flag is parsed and has NO
+    // effect anywhere in this code base (see props/C01.json assumptions); the differential pins that
+    let mut swap_nodes = vec![];
+    for (kind, len) in [(Kind::IntReg, 2i64), (Kind::IntReg, 4), (Kind::IntReg, 8), (Kind::IntReg, 1), (Kind::FloatReg, 4), (Kind::FloatReg, 8), (Kind::StringReg, 6), (Kind::Register, 4)] {
+        for be in [false, true] {
+            for signed in [false, true] {
+                if kind != Kind::IntReg && signed { continue; }
+                if matches!(kind, Kind::StringReg | Kind::Register) && be { continue; }
+                k += 1;
+                let i = add(kind, len, be, signed, addrs[k % addrs.len()], false, &mut specs);
+                specs[i].swap = true;
+                swap_nodes.push(i);
+            }
+        }
+    }
     let chunk_nodes = vec![
         add(Kind::IntReg, 4, false, false, 0x100, true, &mut specs),
         add(Kind::FloatReg, 8, true, false, 0x100, true, &mut specs),
@@ -1069,6 +1279,7 @@ fn main() {
             kind: match kind { "IntReg" => Kind::IntReg, "FloatReg" => Kind::FloatReg, "StringReg" => Kind::StringReg, _ => Kind::Register },
             len: sp["len"].as_i64().unwrap(), be: sp["be"].as_bool().unwrap(), signed: sp["signed"].as_bool().unwrap(),
             addr: sp["addr"].as_str().unwrap().parse().unwrap(), chunk: sp["chunk"].as_bool().unwrap(),
+            swap: sp["swap"].as_bool().unwrap_or(false),
         };
         let saved = std::mem::replace(&mut r.w, build(vec![spec]));
         let base: i64 = rp["base"].as_str().unwrap().parse().unwrap();
@@ -1286,6 +1497,29 @@ fn main() {
                 let data = rng.bytes(n);
                 r.case(idx, Op::RegWrite(data), dev, "raw");
             }
+        }
+    }
+
+    // ----- port with SwapEndianess=Yes (same oracle as a plain port: the flag has no effect) -----
+    for &idx in &swap_nodes {
+        let s = r.w.specs[idx].clone();
+        let l = s.len as usize;
+        for _ in 0..(if thorough { 60 } else { 12 }) {
+            match s.kind {
+                Kind::IntReg => { let v = if s.len == 8 { rng.interesting_i64() } else { rng.interesting_i64() >> (64 - 8 * s.len) }; r.int_roundtrip(idx, v, &mut rng, "swap-port"); }
+                Kind::FloatReg => { let b = if s.len == 4 { (f32::from_bits(rng.next_u64() as u32) as f64).to_bits() } else { rng.next_u64() }; r.float_roundtrip(idx, b, &mut rng, "swap-port"); }
+                Kind::StringReg => { let n = rng.below(l as u64 + 1) as usize; let st: String = (0..n).map(|_| (0x21 + rng.below(0x5e)) as u8 as char).collect(); r.str_roundtrip(idx, &st, &mut rng, "swap-port"); }
+                Kind::Register => {
+                    let dev = r.fresh_dev(idx, &mut rng, None);
+                    let data = rng.bytes(l);
+                    let (_, dev) = r.case(idx, Op::RegWrite(data), dev, "swap-port");
+                    let d2 = RecDevice::new(dev.base, dev.img.clone(), vec![]);
+                    r.case(idx, Op::RegRead(l), d2, "swap-port");
+                }
+            }
+            let dev = r.fresh_dev(idx, &mut rng, None);
+            let rd = match s.kind { Kind::IntReg => Op::IntValue, Kind::FloatReg => Op::FloatValue, Kind::StringReg => Op::StrValue, Kind::Register => Op::RegRead(l) };
+            r.case(idx, rd, dev, "swap-port");
         }
     }
 
